@@ -1,9 +1,11 @@
 (* Property C01 — Hamiltonian-to-TTNO conversion is exact.  Statements only; each is closed by
    `exact`.  Model: SD/Model.v (state diagrams, polynomials, the checker), proofs:
    SD/ModelProofs.v. *)
-From Coq Require Import List Arith Bool QArith.
-From PTN Require Import Tree.RTree SD.Model SD.ModelProofs.
+From Coq Require Import List Arith Bool QArith Qcanon Ring.
+From PTN Require SGE.Model.
+From PTN Require Import Tree.RTree SD.Model SD.ModelProofs SD.Core SD.CoreProofs.
 Import ListNotations.
+Local Close Scope Qc_scope.
 Local Close Scope Q_scope.
 
 (* The checker is sound, for every tree, term list and diagram: if the normal forms agree,
@@ -111,3 +113,132 @@ Example C01_example_base :
   sd_wf wit_ok_tree (sd_base wit_ok_tree wit_ok_ham) && sd_check wit_ok_tree wit_ok_ham (sd_base wit_ok_tree wit_ok_ham) = true.
 Proof. vm_compute. reflexivity. Qed.
 Print Assumptions C01_example_base.
+
+(* ---------------------------------------------------------------------------------------
+   Algebraic core of the compressing pipelines (SD/Core.v, SD/CoreProofs.v)
+   --------------------------------------------------------------------------------------- *)
+
+(* equality of coefficient functions is a congruence for the product of polynomials (hence for
+   every contraction `val` is built from) *)
+Theorem C01_pmul_congruence : forall (p p' q q' : poly),
+  (forall k, (coef p k == coef p' k)%Q) -> (forall k, (coef q k == coef q' k)%Q) ->
+  forall k, (coef (pmul p q) k == coef (pmul p' q') k)%Q.
+Proof. exact pmul_peq. Qed.
+Print Assumptions C01_pmul_congruence.
+
+(* StateDiagram.combine_subtrees, step 1 (the sub-diagram below x2 is kept, unreachable): if the
+   sub-diagrams hanging below two vertices x1, x2 of the edge (parent(c), c) denote the same
+   polynomial, letting every hyperedge of the parent node that sits on x2 sit on x1 instead keeps
+   the denotation of the whole diagram -- every tree, every diagram. *)
+Theorem C01_merge_redirect_sound : forall (t : rtree) (c : nat) (x1 x2 : oid) (d : sd), NoDup (ids t) ->
+  (forall k, (coef (child_side t d c x1) k == coef (child_side t d c x2) k)%Q) ->
+  forall k, (coef (sd_denote t (mkSd (merge_redirect t c x1 x2 (hes d)) (vxs d))) k == coef (sd_denote t d) k)%Q.
+Proof. exact merge_redirect_sound. Qed.
+Print Assumptions C01_merge_redirect_sound.
+
+(* ... and the whole step (redirect, then erase_subtree below x2, vertex collections updated):
+   `merge` keeps the denotation provided no surviving hyperedge of another node touches an erased
+   vertex (what erase_subtree silently relies on; decided by `privateb`). *)
+Theorem C01_merge_equal_subtrees_sound : forall (t : rtree) (c : nat) (x1 x2 : oid) (d : sd), NoDup (ids t) ->
+  (forall k, (coef (child_side t d c x1) k == coef (child_side t d c x2) k)%Q) ->
+  (forall h k y, In h (merge_redirect t c x1 x2 (hes d)) ->
+     is_dead (merge_dead t c x2 (merge_redirect t c x1 x2 (hes d))) h = false -> hnode h <> k -> In y (hverts h) ->
+     ~ In y (dead_of (merge_dead t c x2 (merge_redirect t c x1 x2 (hes d))) k)) ->
+  forall k, (coef (sd_denote t (merge t c x1 x2 d)) k == coef (sd_denote t d) k)%Q.
+Proof. exact merge_equal_subtrees_sound. Qed.
+Print Assumptions C01_merge_equal_subtrees_sound.
+
+Theorem C01_merge_keeps_exact : forall (t : rtree) (H : list pterm) (c : nat) (x1 x2 : oid) (d : sd), NoDup (ids t) ->
+  (forall k, (coef (child_side t d c x1) k == coef (child_side t d c x2) k)%Q) ->
+  privateb (merge_dead t c x2 (merge_redirect t c x1 x2 (hes d))) (merge_redirect t c x1 x2 (hes d)) = true ->
+  (forall k, (coef (sd_denote t d) k == coef (ham_denote t H) k)%Q) ->
+  forall k, (coef (sd_denote t (merge t c x1 x2 d)) k == coef (ham_denote t H) k)%Q.
+Proof. exact merge_keeps_exact. Qed.
+Print Assumptions C01_merge_keeps_exact.
+
+(* StateDiagram.cut_and_optimise / _reconnect_hyperedges, over any commutative ring: if
+   Gamma = L * Gamma_u * R entry by entry, `supp` contains the non-zero entries of Gamma_u and
+   (Cu, Cv) is a vertex cover of supp, then the cut sum_ij u_i Gamma_ij v_j equals the sum over
+   the new vertices: for a in Cu  (sum_i L_ia u_i) * sum_{b in adj(a)} Gamma_u[a][b] (sum_j R_bj v_j),
+   for b in Cv  (sum_{a in adj(b), a not in Cu} Gamma_u[a][b] (sum_i L_ia u_i)) * (sum_j R_bj v_j). *)
+Theorem C01_cut_regroup_sound : forall (R : Type) (r0 r1 : R) (radd rmul rsub : R -> R -> R) (ropp : R -> R),
+  ring_theory r0 r1 radd rmul rsub ropp eq ->
+  forall (m n m' n' : nat) (L Gu Rr G : nat -> nat -> R) (u v : nat -> R)
+         (supp : nat -> nat -> bool) (Cu Cv : list nat),
+  (forall i j, i < m -> j < n -> G i j = mprod3 R r0 radd rmul m' n' L Gu Rr i j) ->
+  (forall a b, a < m' -> b < n' -> supp a b = false -> Gu a b = r0) ->
+  (forall a b, a < m' -> b < n' -> supp a b = true -> In a Cu \/ In b Cv) ->
+  NoDup Cu /\ (forall a, In a Cu -> a < m') ->
+  NoDup Cv /\ (forall b, In b Cv -> b < n') ->
+  bilform R r0 radd rmul m n G u v = regrouped R r0 radd rmul m n m' n' L Gu Rr u v supp Cu Cv.
+Proof. exact cut_regroup_sound. Qed.
+Print Assumptions C01_cut_regroup_sound.
+
+(* every covered entry of Gamma_u is used by exactly one of the new vertices (rows first) *)
+Theorem C01_cover_assignment_unique : forall (Cu Cv : list nat) (a b : nat),
+  NoDup Cu -> NoDup Cv -> In a Cu \/ In b Cv ->
+  length (filter (uses Cu a b) (new_vertices Cu Cv)) = 1.
+Proof. exact cover_assignment_unique. Qed.
+Print Assumptions C01_cover_assignment_unique.
+
+(* composed with C13: for every non-empty rectangular Gamma the triple gaussian_elimination
+   returns can be regrouped along any vertex cover of the non-zero entries of Gamma_u, for the
+   constant part (x = None) and for every symbol (x = Some s) *)
+Theorem C01_cut_regroup_sge : forall (m n : nat) (M : SGE.Model.mat),
+  length M = m /\ SGE.Model.rectE n M -> 1 <= m -> 1 <= n ->
+  exists (L : SGE.Model.qmat) (M' : SGE.Model.mat) (Rr : SGE.Model.qmat) (m' n' : nat),
+    SGE.Model.gaussian_elimination M = Some (L, M', Rr) /\
+    (length M' = m' /\ SGE.Model.rectE n' M') /\
+    forall (supp : nat -> nat -> bool) (Cu Cv : list nat),
+      (forall a b, a < m' -> b < n' -> supp a b = false ->
+                   forall x, SGE.Model.coef (SGE.Model.get M' a b) x = Q2Qc 0) ->
+      (forall a b, a < m' -> b < n' -> supp a b = true -> In a Cu \/ In b Cv) ->
+      (NoDup Cu /\ forall a, In a Cu -> a < m') -> (NoDup Cv /\ forall b, In b Cv -> b < n') ->
+      forall (x : option nat) (u v : nat -> Qc),
+        bilform Qc (Q2Qc 0) Qcplus Qcmult m n (fun i j => SGE.Model.coef (SGE.Model.get M i j) x) u v
+        = regrouped Qc (Q2Qc 0) Qcplus Qcmult m n m' n'
+            (SGE.Model.qget L) (fun a b => SGE.Model.coef (SGE.Model.get M' a b) x) (SGE.Model.qget Rr)
+            u v supp Cu Cv.
+Proof. exact cut_regroup_sge. Qed.
+Print Assumptions C01_cut_regroup_sge.
+
+(* TTNO.from_state_diagram / _rec_zero_ttno (ttno_build: obtain_tensor_shape, add_child_to_parent
+   with its existence / shape-matching / uniqueness / open-leg checks and leg moves): on a
+   well-formed diagram whose labels are in the operator table the construction succeeds; the
+   nodes are created in pre-order with exactly the identifiers of the tree; every node has the
+   tree's parent and children in the tree's order; its tensor has the legs
+   (parent, children..., out, in), the leg to a neighbour has as many entries as the edge has
+   vertices, the physical legs have the dimension of the table entry of the node's first label. *)
+Theorem C01_structure_preserved : forall (pd : nat -> option nat) (t : rtree) (d : sd), NoDup (ids t) ->
+  sd_wf t d = true -> (forall h, In h (hes d) -> pd (hlabel h) <> None) ->
+  exists st, ttno_build pd t d = Some st /\ map tn_id st = ids t /\
+    forall n, In n st ->
+      tn_parent n = parent_of (tn_id n) t /\
+      tn_children n = children_ids t (tn_id n) /\
+      tn_shape n = map (nverts_on d) (opt_list (option_map (fun _ => tn_id n) (tn_parent n)) ++ tn_children n)
+                   ++ [phys_of pd d (tn_id n); phys_of pd d (tn_id n)] /\
+      exists h, In h (hes d) /\ hnode h = tn_id n /\ pd (hlabel h) = Some (phys_of pd d (tn_id n)).
+Proof. exact structure_preserved. Qed.
+Print Assumptions C01_structure_preserved.
+
+(* non-vacuity of the merge: the BASE diagram of two terms with the same operator on node 1; its two
+   vertices on the edge (0, 1) have equal child sides, the erased part is private, the merged
+   diagram is well-formed, still certified, and the edge has one vertex left *)
+Example C01_example_merge :
+  let t := RNode 0 [RNode 1 []] in
+  let H := [(1%Q, 0, fun v => match v with 0 => 12 | _ => 22 end); ((2 # 3)%Q, 1, fun v => match v with 0 => 32 | _ => 22 end)] in
+  let d := sd_base t H in
+  let s1 := merge_redirect t 1 (0, 1) (1, 1) (hes d) in
+  poly_eqb (pnorm (child_side t d 1 (0, 1))) (pnorm (child_side t d 1 (1, 1)))
+  && privateb (merge_dead t 1 (1, 1) s1) s1
+  && sd_wf t (merge t 1 (0, 1) (1, 1) d) && sd_check t H (merge t 1 (0, 1) (1, 1) d)
+  && Nat.eqb (nverts_on d 1) 2 && Nat.eqb (nverts_on (merge t 1 (0, 1) (1, 1) d) 1) 1 = true.
+Proof. vm_compute. reflexivity. Qed.
+Print Assumptions C01_example_merge.
+
+(* ... and of the structure theorem: the skeleton of the SGE diagram above *)
+Example C01_example_shape :
+  ttno_shape (pd_of [(12, 2); (2, 2); (1, 1); (22, 2)]) wit_ok_tree wit_ok_sd
+  = Some [(0, None, [2; 1], [2; 2; 2; 2]); (2, Some 0, [3], [2; 2; 1; 1]); (3, Some 2, [], [2; 2; 2]); (1, Some 0, [], [2; 2; 2])].
+Proof. vm_compute. reflexivity. Qed.
+Print Assumptions C01_example_shape.
